@@ -11,7 +11,7 @@ import (
 
 func init() {
 	register("C02", core.Spec{
-		Decides: "(1) every axiom of lang/check's reasons[] table, as implemented by the generated closures (Go rebinding semantics included), is the rule its name states and is a theorem of the integers — decided per axiom by Fourier–Motzkin refutation of premises ∧ ¬claim; axioms.md and the table are the same sequence; (2) the fact-invalidation discipline of the bounds checker holds on every control-flow path of the anchored functions: assignment drops facts mentioning the assignee before adding new ones, compound assignment rewrites or drops, impure calls drop facts about the receiver and by-reference arguments, coroutine calls and yields apply updateFactsForSuspension, io_bind/io_limit drop facts about the I/O token on entry and exit, iterate/jump/while reset the fact set where they must and re-prove invariants at every back edge and jump, if/else arms start from the same snapshot and are reconciled by intersection, and updateFactsForSuspension drops every fact mentioning args, this or a pointer-typed value; (3) the operator tables (invert, otherHandSide, opImpliesOp, proveBinaryOpConstValues, facts.refine, the x-y sign table) are correct for all values, decided exactly by exhaustive evaluation over the finite set of orderings of the symbols they compare",
+		Decides:    "(1) every axiom of lang/check's reasons[] table, as implemented by the generated closures (Go rebinding semantics included), is the rule its name states and is a theorem of the integers — decided per axiom by Fourier–Motzkin refutation of premises ∧ ¬claim; axioms.md and the table are the same sequence; (2) the fact-invalidation discipline of the bounds checker holds on every control-flow path of the anchored functions: assignment drops facts mentioning the assignee before adding new ones, compound assignment rewrites or drops, impure calls drop facts about the receiver and by-reference arguments, coroutine calls and yields apply updateFactsForSuspension, io_bind/io_limit drop facts about the I/O token on entry and exit, iterate/jump/while reset the fact set where they must and re-prove invariants at every back edge and jump, if/else arms start from the same snapshot and are reconciled by intersection, and updateFactsForSuspension drops every fact mentioning args, this or a pointer-typed value; (3) the operator tables (invert, otherHandSide, opImpliesOp, proveBinaryOpConstValues, facts.refine, the x-y sign table) are correct for all values, decided exactly by exhaustive evaluation over the finite set of orderings of the symbols they compare",
 		NotDecided: "that the *set* of invalidations is sufficient for every aliasing pattern (stores through a slice aliasing another, facts about x.length() after passing x), simplify(), optimizeIOMethodAdvance's arithmetic, and that proveBinaryOp's search is complete. These rules are necessary conditions: removing any one makes some accepted program carry a false fact",
 		Assumptions: []string{"go/types, go/cfg (x/tools v0.29.0)", "the generated closures follow the generator's statement forms; any other form fails as undecided",
 			"the operator tables touch values only through comparisons and ±1, so enumerating small integers covers every ordering"},
@@ -631,7 +631,7 @@ func runC02Facts(k *gctx) {
 				c.Undecided("F-i.post", name+"[post conditions]", "post conditions are proved between the first and the second reset", "not found")
 			} else {
 				k.mustPass("F-i.post.from", name+"[post conditions]", "post conditions are proved only from {pre, inv, ¬condition}: the fact set is emptied first and the inverted loop condition is appended", fl, core.Query{
-					Exit: func(x ast.Node) bool { return x.Pos() >= postProve.Pos() && x.End() <= postProve.End() && isAssert(x) },
+					Exit:   func(x ast.Node) bool { return x.Pos() >= postProve.Pos() && x.End() <= postProve.End() && isAssert(x) },
 					Events: []core.Event{reset}})
 				k.mustPass("F-i.post.inverse", name+"[post conditions]", "…and the inverted loop condition is among the assumptions", fl, core.Query{
 					Start: func(x ast.Node) bool { return x == r0 },
@@ -657,7 +657,7 @@ func runC02Facts(k *gctx) {
 				}
 				// skipping the post proofs is allowed only for `while true`
 				k.mustPass("F-i.post.reach", name+"[post conditions]", "the post-condition proofs are skipped only when the loop condition is the constant true", fl, core.Query{
-					Exit: func(x ast.Node) bool { return x == r1 },
+					Exit:   func(x ast.Node) bool { return x == r1 },
 					Events: []core.Event{{Node: func(x ast.Node) bool { return x.Pos() >= postProve.Pos() && x.End() <= postProve.End() }}},
 					Exempt: func(cond ast.Expr, ci *core.CondInfo, taken bool) bool {
 						// cv != nil && cv.Cmp(one) == 0
@@ -793,8 +793,10 @@ func runC02Facts(k *gctx) {
 			},
 			Events: []core.Event{{Node: isRestore}}})
 		k.mustPass("F-j.snapshot", name, "the snapshot is taken before the condition's fact is assumed", fl, core.Query{
-			Exit:   func(x ast.Node) bool { return core.Guaranteed(x, factsMethod(fl, "appendFact")) },
-			Events: []core.Event{{Node: func(x ast.Node) bool { return core.Guaranteed(x, fl.Call(snapshot, func(a ast.Expr) bool { return isFactsField(fl, a) })) }}}})
+			Exit: func(x ast.Node) bool { return core.Guaranteed(x, factsMethod(fl, "appendFact")) },
+			Events: []core.Event{{Node: func(x ast.Node) bool {
+				return core.Guaranteed(x, fl.Call(snapshot, func(a ast.Expr) bool { return isFactsField(fl, a) }))
+			}}}})
 		// terminated arms are excluded from the reconciliation
 		appendBranch := func(x ast.Node) bool {
 			as, ok := x.(*ast.AssignStmt)
